@@ -21,6 +21,40 @@ CHECKS = {
         technique="explicit enumeration of environment words and configuration deviations on the implementation; per-transition ledger invariant",
         ref="3/C01",
     ),
+    "C02": dict(
+        text="Same exploration as C01 plus the complete surface sub-product (bunds x inhibited runoff x CN adjustment x antecedent-moisture "
+             "adjustment x rain 0-300 mm x irrigation/efficiency x soil); P + eff*Irr = Infl + Runoff, the runoff/infiltration bounds and the "
+             "dry-day clause are evaluated on every transition.",
+        technique="explicit enumeration of surface configurations and weather deviations on the implementation; per-transition partition invariant",
+        ref="3/C02",
+    ),
+    "C03": dict(
+        text="C01's exploration plus extreme bases (3-season drought with off-season, SAT starts under storms, shallow tables, low-Ksat layers, "
+             "bunds filled above their height); theta within [air-dry, saturation] per compartment, ponding within [0, bund height] and Wr >= 0 are "
+             "state invariants evaluated on the initial state and after every transition.",
+        technique="explicit enumeration of configurations/weather on the implementation; state invariant on every reached state",
+        ref="3/C03",
+    ),
+    "C04": dict(
+        text="C01's exploration plus all crops with CCx > 0.96 driven to full canopy, mulches and partial wetting; sign of every flux column, "
+             "actual <= potential and off-season zeros are evaluated on every transition.",
+        technique="explicit enumeration of configurations/weather on the implementation; per-transition flux invariants",
+        ref="3/C04",
+    ),
+    "C05": dict(
+        text="All 37 catalogue crops at full length under stress words, water-table menus and a restrictive layer, plus scaled crops with a deviating "
+             "day at every day of the season; the crop envelope (CC, roots, HI, biomass, degree days, finiteness, off-season zeros) is evaluated "
+             "on every state and consecutive pair with the season's own crop copy.",
+        technique="explicit enumeration of crops x soils x weather words/deviations on the implementation; state and step invariants",
+        ref="3/C05",
+    ),
+    "C06": dict(
+        text="All 37 crops x 6 irrigation strategies x {normal, death-before-maturity} plus multi-season scaled runs and windows cut around "
+             "maturity; daily biomass/yield identities are recomputed exactly on every in-season transition and the seasonal summary is compared "
+             "with the daily tables (one row per harvest transition, values of the harvest step, irrigation = column sum) on every execution.",
+        technique="explicit enumeration of crops x strategies x windows on the implementation; per-transition identities and per-execution summary/table relation",
+        ref="3/C06",
+    ),
 }
 
 NOT_YET = "check not built yet in this session (in progress; see DESIGN.md 3 for its design)"
